@@ -199,6 +199,7 @@ func (s *Stream) Read(p []byte) (int, error) {
 	if op == nil {
 		// context ended while parked
 		s.CtxErrDelivered = true
+		s.Env.Log(s.Name, "read → %v (the stream's context has ended)", s.Ctx.Err())
 		return 0, s.Ctx.Err()
 	}
 	s.Reads++
